@@ -158,7 +158,13 @@ Print Assumptions C05_survivors_removal_total.
    7. listings and look-ups once the caller has dropped its references (ODrop = forget what is no longer attached +
       gc.collect()).  [listed w k] is what ws.groups / objects / data / property_groups return (live referents of that
       registry); OLookup is get_entity(uid) (names are looked up through the same registries).
-      In EVERY state: whatever is not attached to the root is, after ODrop, neither referenced, nor found, nor listed. *)
+      In EVERY state: whatever is not attached to the root is, after ODrop, neither referenced, nor found, nor listed.
+      DEFINITIONAL (audit 2, A11): this holds by construction of the model -- ODrop SETS held := filter attachedb,
+      OLookup answers Found only on held, [listed] filters held.  That "no internal strong reference keeps an unattached
+      entity alive" is the liveness convention of Model/Removal.v (header), tied to the code by the correspondence only
+      (the driver drops its references and collects; listings and look-ups are compared after every operation).  The PROVED
+      content for this clause is C05_removed_subtree_unattached below: a completed removal leaves nothing of the subtree
+      attached; this theorem merely composes it with the convention (C05_removed_not_yielded). *)
 Theorem C05_not_attached_not_yielded : forall c w x,
   attachedb w x = false ->
   let w1 := fst (step c w ODrop) in
